@@ -123,6 +123,24 @@ pub fn cases(rng: &mut Rng, tier: &str, driver: &Driver) -> (Vec<Case>, bool) {
             }
         }
     }
+    // comparisons and logical operators with NaN and infinite operands (there are no such literals: they have to be computed)
+    let odd = [
+        "bpow uneg n4020000000000000 p bdiv n3ff0000000000000 n4008000000000000", // (-8) ^ (1/3) = NaN
+        "bsub bpow n4022000000000000 n408f380000000000 bpow n4022000000000000 n408f380000000000", // 9^999 - 9^999 = NaN
+        "bpow n4022000000000000 n408f380000000000",                                // inf
+        "uneg bpow n4022000000000000 n408f380000000000",                           // -inf
+        "uneg n0000000000000000",                                                  // -0
+    ];
+    for x in odd {
+        for op in ["eq", "ne", "lt", "le", "gt", "ge", "and", "or", "add", "mul"] {
+            trees.push((format!("b{} {} n3ff0000000000000", op, x), "nan-inf-operands"));
+            trees.push((format!("b{} n3ff0000000000000 {}", op, x), "nan-inf-operands"));
+            trees.push((format!("b{} {} {}", op, x, x), "nan-inf-operands"));
+            trees.push((format!("unot b{} {} n3ff0000000000000", op, x), "nan-inf-operands"));
+        }
+        trees.push((format!("a {}", x), "nan-inf-operands"));
+        trees.push((format!("i {}", x), "nan-inf-operands"));
+    }
     // truthiness at the edge: tiny non-zero operands, rounding residue, empty / blank strings, in every logical context
     let tiny = ["n3c9cd2b297d889bc", "n3cb0000000000000", "n0000000000000001", "n01a56e1fc2f8f359", "bsub badd n3fb999999999999a n3fc999999999999a n3fd3333333333333", "bsub bsub n3ff0000000000000 n3feccccccccccccd n3fb999999999999a", "s", "s20", "v4224"];
     for x in tiny {
@@ -158,6 +176,21 @@ pub fn cases(rng: &mut Rng, tier: &str, driver: &Driver) -> (Vec<Case>, bool) {
     let base = 1 + ENV.len();
     for (ci, chunk) in trees.chunks(40).enumerate() {
         let mut ops = vec!["new 0 0".to_string()];
+        if ci % 7 == 3 {
+            // a session that has DEFined functions named like the built-ins: ABS and INT stay absolute value and floor
+            for l in ["1 DEF ABS(X) = X + 100", "2 DEF INT(A, B) = 7", "3 DEF RND(Q$) = 1", "4 DEF FNA(X) = X", "RUN", "cont", "cont", "cont", "cont"] {
+                if l == "cont" {
+                    ops.push("state".to_string());
+                } else {
+                    ops.push(format!("start {}", hex(l)));
+                }
+            }
+            // run the four DEF lines to the end
+            ops.retain(|o| o != "state");
+            for _ in 0..3 {
+                ops.push("cont".to_string());
+            }
+        }
         for e in ENV {
             ops.push(format!("start {}", hex(e)));
         }
